@@ -25,6 +25,11 @@
 (*     "M" prose that mentions //go:redirect-from sym                       *)
 (*     "K" a /* */ comment containing the annotation text                   *)
 (*     "B" an empty line: what stands above it is not attached to the decl  *)
+(*   Input size is part of the tree but not of the result: a line may be    *)
+(*   <<t, sym, n>> (rendered exactly n bytes long) and a var/const decl may *)
+(*   have wide = n (one source line of n bytes holding a string literal);   *)
+(*   trees may have > 1000 files per directory, > 1000 declarations per     *)
+(*   file and any directory depth.  Only lengths are logged, never content. *)
 (*                                                                          *)
 (* Events:  file  f            one file of the tree (in any order)          *)
 (*          build res out      one complete run of redirect discovery over  *)
